@@ -50,10 +50,15 @@ def real_chain(spa, start, length):
     req.handle(GeckoStatusBlockProtocolHandler.request(1, start, length, parms=SENDER)._content, SENDER)
     sim._on_status_block(req, SENDER)
     out = []
+    from geckolib.driver import GeckoPacketProtocolHandler
     for h, _ in sim._socket._send_handlers:
+        # each segment travels FRAMED, as on the wire: the client's packet handler unwraps it, then the STATV decoder reads it
+        un = GeckoPacketProtocolHandler()
+        un.handle(h.send_bytes, SENDER[:2])
+        content = un.packet_content if un.packet_content is not None else b""
         d = GeckoStatusBlockProtocolHandler()
-        d.handle(h._content, SENDER)
-        out.append((d.sequence, d.next, d.data, h._content))
+        d.handle(content, SENDER)
+        out.append((d.sequence, d.next, d.data, content))
     return out
 
 
@@ -271,8 +276,21 @@ def run(ctx):
     ctx.lean_obligations("GeckoModel.Properties.C01")
     rng = ctx.rng
     lines, impl_ans = [], []
-    spa = bytes(rng.randrange(256) for _ in range(1024))
+    spa = bytearray(rng.randrange(256) for _ in range(1024))
+    # the spa's block is arbitrary bytes: plant the framing tags of the transport in it (inside single segments and across them)
+    for tag_ in (b"</DATAS>", b"<DATAS>", b"</PACKT>", b"<SRCCN>", b"</DESCN><DATAS>", b"STATV"):
+        for _ in range(3):
+            k_ = rng.randrange(0, 1024 - len(tag_))
+            spa[k_:k_ + len(tag_)] = tag_
+    spa = bytes(spa)
     cli = bytes(rng.randrange(256) for _ in range(1024))
+    _viol = ctx.violation
+
+    def violation_with_blocks(key, inp, expected, observed):       # a replay must run on the very blocks of this run
+        if isinstance(inp, dict) and inp.get("spa") == "seeded":
+            inp = dict(inp, spa_hex=spa.hex(), cli_hex=cli.hex())
+        return _viol(key, inp, expected, observed)
+    ctx.violation = violation_with_blocks
     lines += [f"blk spa {spa.hex()}", f"blk cli {cli.hex()}"]
     impl_ans += ["ok", "ok"]
     # ---- 1. chain arithmetic: generated definitions vs the real simulator (translator cross-check + fault-free search)
@@ -411,6 +429,8 @@ def replay(inp):
     rng = random.Random(0)
     spa = bytes(rng.randrange(256) for _ in range(1024))
     cli = bytes(rng.randrange(256) for _ in range(1024))
+    if inp.get("spa_hex"):
+        spa, cli = bytes.fromhex(inp["spa_hex"]), bytes.fromhex(inp["cli_hex"])
     if inp.get("client") == "threaded-history":
         hs = inp["history"]
         chains = {(h["start"], h["len"]): real_chain(spa, h["start"], h["len"]) for h in hs}
